@@ -324,4 +324,265 @@ theorem items_shape {st st' : State} (h : SInv st) (m : Micro) (he : exec' st m 
   | aCreate a cap => exact hother (by simp [Micro.nodeTargets])
   | aSwap a b => exact hother (by simp [Micro.nodeTargets])
 
+-- put ----------------------------------------------------------------------------------------------------------
+
+theorem putResolved_shape {st st' : State} (c : Var) (p : Nat) (kr vr : Option (Option Loc × Option Nat))
+    (srcs : List (Nat × Option Loc × Option Nat)) (he : putResolved st c p kr vr srcs = some st') :
+    st'.nodes = st.nodes ∨
+    (∃ q, st' = insertNew st c q srcs ∧
+      (c.k.hasKey = true → ∃ l kp, kr = some (l, some kp) ∧
+        (c.k = .U → q = countWhile st (fun x => x ≤ kp) (st.nodes c).items) ∧
+        (c.k ≠ .U → findField st 0 kp (st.nodes c).items = none ∧
+          (c.k = .M → q = countWhile st (fun x => x < kp) (st.nodes c).items)))) := by
+  unfold putResolved at he
+  by_cases hk : c.k.hasKey = true
+  · simp only [hk, if_true] at he
+    cases kr with
+    | none => simp at he
+    | some kk =>
+      obtain ⟨kl, kp⟩ := kk
+      cases kp with
+      | none => simp at he
+      | some kp =>
+        simp only at he
+        by_cases hU : c.k = .U
+        · simp only [hU, if_true, Option.some.injEq] at he
+          refine Or.inr ⟨_, he.symm, fun _ => ⟨kl, kp, rfl, fun _ => rfl, fun hn => absurd hU hn⟩⟩
+        · simp only [hU, if_false] at he
+          cases hfind : findField st 0 kp (st.nodes c).items with
+          | none =>
+            simp only [hfind, Option.some.injEq] at he
+            refine Or.inr ⟨_, he.symm, fun _ => ⟨kl, kp, rfl, fun hu => absurd hu hU, fun _ => ⟨hfind, ?_⟩⟩⟩
+            intro hM; simp [hM]
+          | some j =>
+            simp only [hfind] at he
+            by_cases hMH : c.k = .M ∨ c.k = .H
+            · simp only [hMH, if_true] at he
+              cases hj : (st.nodes c).items[j]? with
+              | none => simp [hj] at he
+              | some it =>
+                simp only [hj] at he
+                cases vr with
+                | none => simp [putAssign] at he
+                | some vv =>
+                  obtain ⟨vl, vp⟩ := vv
+                  cases vl with
+                  | none => simp [putAssign] at he
+                  | some vl =>
+                    simp only [putAssign, Option.some.injEq] at he
+                    subst he; exact Or.inl rfl
+            · simp only [hMH, if_false, Option.some.injEq] at he
+              subst he; exact Or.inl rfl
+  · simp only [hk, Bool.false_eq_true, if_false, Option.some.injEq] at he
+    exact Or.inr ⟨_, he.symm, fun hk' => absurd hk' hk⟩
+
+theorem keys_some {st : State} (h : SInv st) (c : Var) (hk : c.k.hasKey = true) :
+    ∀ a, a ∈ keysOf st c → ∃ k, a = some k := by
+  intro a ha
+  simp only [keysOf, List.mem_map] at ha
+  obtain ⟨it, hit, rfl⟩ := ha
+  have := h.items_live c it 0 hit ((Ops.hasKey_iff c.k).mp hk)
+  cases hm : st.mem (it.loc 0) with
+  | none => rw [hm] at this; cases this
+  | some k => exact ⟨k, hm⟩
+
+theorem keysOk_put {st st' : State} (h : SInv st) (hk : KeysOk st) (c : Var) (pos : Option Nat)
+    (k v : Option SrcRef) (he : exec st (.put c pos k v) = some st') : KeysOk st' := by
+  obtain ⟨evs, _, hst⟩ := Stable.exec_stable h _ he
+  have hkey : ∀ c' it, it ∈ (st.nodes c').items → st'.mem (it.loc 0) = st.mem (it.loc 0) := by
+    intro c' it hit
+    rcases hst c' it hit with ⟨_, _, _, _, h4⟩ | ⟨hr, _⟩
+    · exact h4
+    · exact False.elim hr
+  have hsame : ∀ c', st'.nodes c' = st.nodes c' → keysOf st' c' = keysOf st c' := by
+    intro c' hn
+    unfold keysOf
+    rw [hn]
+    apply List.map_congr_left
+    intro it hit
+    exact hkey c' it hit
+  obtain ⟨_, _, hoth, _, _⟩ := Ops.put_post c pos k v he
+  intro c'
+  by_cases hc : c' ≠ c
+  · rw [hsame c' (hoth c' hc)]; exact hk c'
+  have hc : c' = c := Decidable.not_not.mp hc
+  subst hc
+  have he' := Stable.exec_exec' he
+  simp only [exec'] at he'
+  by_cases ha : ¬ (st.nodes c').alive = true
+  · simp [ha] at he'
+  have ha : (st.nodes c').alive = true := Decidable.not_not.mp ha
+  simp only [ha, Bool.not_true, Bool.false_eq_true, if_false] at he'
+  cases hkr : resolveOpt st k with
+  | none => simp [hkr] at he'
+  | some kr =>
+    simp only [hkr] at he'
+    cases hvr : resolveOpt st v with
+    | none => simp [hvr] at he'
+    | some vr =>
+      simp only [hvr] at he'
+      cases hsr : fieldSrcs c'.k kr vr with
+      | none => simp [hsr] at he'
+      | some srcs =>
+        simp only [hsr] at he'
+        by_cases hpos : pos.getD (st.nodes c').items.length > (st.nodes c').items.length
+        · simp [hpos] at he'
+        · simp only [hpos, if_false] at he'
+          rcases putResolved_shape c' _ kr vr srcs he' with hn | ⟨q, rfl, hq⟩
+          · rw [hsame c' (by rw [hn])]; exact hk c'
+          · have hfs := (mapM_fields (P := fun _ _ => True) kr vr (fun _ _ _ => trivial) (fun _ _ _ => trivial)
+              c'.k.fields srcs hsr).1
+            obtain ⟨it, hit, hmem⟩ := insertNew_full st c' q srcs (by rw [hfs]; exact fields_nodup _)
+            have hkeys : keysOf (insertNew st c' q srcs) c' =
+                insertAt (keysOf st c') q ((insertNew st c' q srcs).mem (it.loc 0)) := by
+              unfold keysOf
+              rw [hit, map_insertAt]
+              congr 1
+              apply List.map_congr_left
+              intro it' hit'
+              exact hkey c' it' hit'
+            -- the keyed kinds
+            have hkeyed : c'.k.hasKey = true → ∃ kp, (insertNew st c' q srcs).mem (it.loc 0) = some kp ∧
+                (c'.k = .U → q = cw (fun x => x ≤ kp) (keysOf st c')) ∧
+                (c'.k ≠ .U → some kp ∉ keysOf st c' ∧ (c'.k = .M → q = cw (fun x => x < kp) (keysOf st c'))) := by
+              intro hkk
+              obtain ⟨l, kp, rfl, hU, hnU⟩ := hq hkk
+              have h0 : 0 ∈ srcs.map (·.1) := by rw [hfs]; exact (Ops.hasKey_iff _).mp hkk
+              obtain ⟨x, hx, hx0⟩ := List.mem_map.mp h0
+              have hxk : x.2.2 = some kp := by
+                rcases Stable.fieldSrcs_shape _ vr c'.k.fields srcs hsr x hx with ⟨_, e⟩ | ⟨ne, _⟩
+                · simp only [Option.some.injEq, Prod.mk.injEq] at e; exact e.2.symm
+                · exact absurd hx0 ne
+              refine ⟨kp, by rw [← hxk, ← hmem x hx, hx0], ?_, ?_⟩
+              · intro hu; rw [hU hu, countWhile_eq]; rfl
+              · intro hnu
+                obtain ⟨hf, hM⟩ := hnU hnu
+                refine ⟨findField_none st kp _ hf, ?_⟩
+                intro hm; rw [hM hm, countWhile_eq]; rfl
+            rw [hkeys]
+            obtain ⟨k1, k2, k3⟩ := hk c'
+            refine ⟨?_, ?_, ?_⟩
+            · intro hM
+              have hkk : c'.k.hasKey = true := by rw [hM]; rfl
+              obtain ⟨kp, hkp, _, hnU⟩ := hkeyed hkk
+              obtain ⟨hnot, hqm⟩ := hnU (by rw [hM]; simp)
+              rw [hkp, hqm hM]
+              apply insert_sorted _ _ _ _ (keys_some h c' hkk)
+              · intro a _ hpr
+                exact ⟨a, kp, rfl, rfl, by simpa using hpr⟩
+              · intro a ha hpr
+                have h1 : ¬ a < kp := by simpa using hpr
+                have h2 : a ≠ kp := fun e => hnot (e ▸ ha)
+                exact ⟨kp, a, rfl, rfl, by omega⟩
+              · rintro a b ⟨x1, y1, e1, e2, l1⟩ ⟨x2, y2, e3, e4, l2⟩
+                subst e2; cases e3
+                exact ⟨x1, y2, e1, e4, by omega⟩
+              · exact k1 hM
+            · intro hU
+              have hkk : c'.k.hasKey = true := by rw [hU]; rfl
+              obtain ⟨kp, hkp, hqu, _⟩ := hkeyed hkk
+              rw [hkp, hqu hU]
+              apply insert_sorted _ _ _ _ (keys_some h c' hkk)
+              · intro a _ hpr
+                exact ⟨a, kp, rfl, rfl, by simpa using hpr⟩
+              · intro a ha hpr
+                have h1 : ¬ a ≤ kp := by simpa using hpr
+                exact ⟨kp, a, rfl, rfl, by omega⟩
+              · rintro a b ⟨x1, y1, e1, e2, l1⟩ ⟨x2, y2, e3, e4, l2⟩
+                subst e2; cases e3
+                exact ⟨x1, y2, e1, e4, by omega⟩
+              · exact k2 hU
+            · intro hHSQ
+              have hkk : c'.k.hasKey = true := by
+                rcases hHSQ with e | e | e <;> rw [e] <;> rfl
+              obtain ⟨kp, hkp, _, hnU⟩ := hkeyed hkk
+              obtain ⟨hnot, _⟩ := hnU (by rcases hHSQ with e | e | e <;> rw [e] <;> simp)
+              rw [hkp]
+              exact (insertAt_perm _ _ _).nodup_iff.mpr (List.nodup_cons.mpr ⟨hnot, k3 hHSQ⟩)
+
+-- all steps ----------------------------------------------------------------------------------------------------
+
+theorem keysOk_exec {st st' : State} (h : SInv st) (hk : KeysOk st) (m : Micro) (he : exec st m = some st') :
+    KeysOk st' := by
+  by_cases hput : ∃ c p k v, m = .put c p k v
+  · obtain ⟨c, p, k, v, rfl⟩ := hput
+    exact keysOk_put h hk c p k v he
+  by_cases hswap : ∃ c d, m = .swap c d
+  · obtain ⟨c, d, rfl⟩ := hswap
+    have he' := Stable.exec_exec' he
+    simp only [exec'] at he'
+    by_cases hg : (!(st.nodes c).alive || !(st.nodes d).alive || c.k != d.k) = true
+    · simp [hg] at he'
+    · rw [if_neg hg] at he'
+      have he' := Option.some.inj he'
+      subst he'
+      simp only [Bool.or_eq_true, Bool.not_eq_true', bne_iff_ne, ne_eq, not_or, Bool.not_eq_false,
+        Decidable.not_not] at hg
+      obtain ⟨_, hkk⟩ := hg
+      have hko : ∀ (s : State) (x : Var) (n : Node), keyOf (s.setNode x n) = keyOf s := fun _ _ _ => rfl
+      apply keysOk_of_sublist hk
+      intro c'
+      by_cases h1 : c' = d
+      · subst h1
+        refine ⟨c, hkk, ?_⟩
+        have : keysOf ((st.setNode c (st.nodes c')).setNode c' (st.nodes c)) c' = keysOf st c := by
+          simp [keysOf, hko, upd_same]
+        rw [this]; exact List.Sublist.refl _
+      · by_cases h2 : c' = c
+        · subst h2
+          refine ⟨d, hkk.symm, ?_⟩
+          have : keysOf ((st.setNode c' (st.nodes d)).setNode d (st.nodes c')) c' = keysOf st d := by
+            simp [keysOf, hko, upd_same, upd_other _ _ _ _ h1]
+          rw [this]; exact List.Sublist.refl _
+        · refine ⟨c', rfl, ?_⟩
+          have : keysOf ((st.setNode c (st.nodes d)).setNode d (st.nodes c)) c' = keysOf st c' := by
+            simp [keysOf, hko, upd_other _ _ _ _ h1, upd_other _ _ _ _ h2]
+          rw [this]; exact List.Sublist.refl _
+  · obtain ⟨evs, _, hst⟩ := Stable.exec_stable h _ he
+    apply keysOk_of_sublist hk
+    intro c'
+    obtain ⟨hs, hnr⟩ := items_shape h m (Stable.exec_exec' he)
+      (fun c p k v e => hput ⟨c, p, k, v, e⟩) (fun c d e => hswap ⟨c, d, e⟩) c'
+    refine ⟨c', rfl, keys_sublist hs ?_⟩
+    intro it hit
+    rcases hst c' it (hs.subset hit) with ⟨_, _, _, _, h4⟩ | ⟨hr, _⟩
+    · exact h4
+    · exact absurd hr (hnr it hit)
+
+theorem keysOk_execAll {st st' : State} (h : SInv st) (hk : KeysOk st) (ms : List Micro)
+    (he : execAll st ms = some st') : KeysOk st' := by
+  induction ms generalizing st with
+  | nil => simp only [execAll, Option.some.injEq] at he; subst he; exact hk
+  | cons m rest ih =>
+    simp only [execAll] at he
+    cases hm : exec st m with
+    | none => rw [hm] at he; cases he
+    | some s1 =>
+      rw [hm] at he
+      exact ih (exec_ok h m hm).1 (keysOk_exec h hk m hm) he
+
+theorem keysOk_step {st : State} (h : SInv st) (hk : KeysOk st) (op : Op) : KeysOk (step st op) := by
+  unfold step stepRes
+  cases hc : compile st op with
+  | none => exact hk
+  | some ms =>
+    simp only
+    cases he : execAll st ms with
+    | none => exact hk
+    | some st' => exact keysOk_execAll h hk ms he
+
+theorem keysOk_run {st : State} (h : SInv st) (hk : KeysOk st) (ops : List Op) : KeysOk (run st ops) := by
+  induction ops generalizing st with
+  | nil => exact hk
+  | cons op rest ih => exact ih (step_ok h op).1 (keysOk_step h hk op)
+
+theorem keysOk_empty : KeysOk empty := by
+  intro c
+  simp [keysOf, empty]
+
+theorem keysOk_init : KeysOk init := keysOk_execAll sinv_empty keysOk_empty createAll init_defined
+
+/-- in every reachable state the keys of the keyed containers are sorted resp. pairwise distinct -/
+theorem keysOk_reach (ops : List Op) : KeysOk (run init ops) := keysOk_run sinv_init.1 keysOk_init ops
+
 end Nstd.Life.Copy
